@@ -524,7 +524,7 @@ func match(pattern ast.Atom, subst *unionfind.UnionFind) (bool, *unionfind.Union
 		// First argument is indeed a pair. Bind.
 		nsubst, err := unionfind.UnifyTermsExtend([]ast.BaseTerm{leftVar, rightVar}, []ast.BaseTerm{fst, snd}, *subst)
 		if err != nil {
-			return false, nil, fmt.Errorf("This should never happen for %v", pattern)
+			return false, nil, nil // the two variables are aliased and the components differ: no match
 		}
 		return true, &nsubst, nil
 
@@ -549,7 +549,7 @@ func match(pattern ast.Atom, subst *unionfind.UnionFind) (bool, *unionfind.Union
 		// First argument is indeed a cons. Bind.
 		nsubst, err := unionfind.UnifyTermsExtend([]ast.BaseTerm{leftVar, rightVar}, []ast.BaseTerm{hd, tail}, *subst)
 		if err != nil {
-			return false, nil, fmt.Errorf("This should never happen for %v", pattern)
+			return false, nil, nil // the two variables are aliased and head and tail differ: no match
 		}
 		return true, &nsubst, nil
 
